@@ -75,8 +75,8 @@ def analyse_entry(run, ev, prog, q, params, config=''):
         full = path + [f.qual]
         if arg.norm == ('UNIT', axis):
             run.ok('R-NORM', inst, where, f'argument `{pname}` has unit norm along axis {axis}')
-        elif arg.norm is None:
-            run.unresolved('R-NORM', inst, where, f'typestate of `{pname}` lost (operation not modelled)')
+        elif arg.norm is None or arg.norm == 'LOST':
+            run.unresolved('R-NORM', inst, where, f'typestate of `{pname}` lost (operation not modelled' + (': a buffer partly overwritten with normalised values)' if arg.norm == 'LOST' else ')'))
         else:
             got = 'not normalised (RAW)' if arg.norm == 'RAW' else f'unit norm along axis {arg.norm[1]}'
             run.violation('R-NORM', inst, where,
@@ -117,20 +117,25 @@ def analyse_entry(run, ev, prog, q, params, config=''):
     # weight or a floor computed from the raw observation)
     leaks = scale_taint(ctx.result) if ctx.result is not None else set()
     short = q.split('::')[1]
+    if leaks and ctx.result is not None and scale_taint(ctx.result, kind='scale-lost'):
+        # the taint arrives through a buffer that was partly overwritten with normalised values and whose coverage could not be folded: not decided
+        run.unresolved('R-NORM', f'{short}{config}: result is free of the observation\'s scale', fn.loc(),
+                       'the observation passes through a buffer that is overwritten block by block with normalised values; whether every entry is overwritten is not decided')
+        return reached
     run.check(not leaks, 'R-NORM', f'{short}{config}: result is free of the observation\'s scale', fn.loc(), 'no returned value / stored field carries the scale taint',
               f'returned value still depends on the magnitude of the raw observation through {sorted(map(str, leaks))} (a quantity computed from the observation before / beside its '
               f'projection to the unit sphere reaches the result)', construct=f'R-NORM::{q}::output-taint')
     return reached
 
 
-def scale_taint(av, depth=0):
-    out = set(d for d in av.deps if d[0] == 'scale')
+def scale_taint(av, depth=0, kind='scale'):
+    out = set(d for d in av.deps if d[0] == kind)
     if av.tup:
         for x in av.tup:
-            out |= scale_taint(x, depth + 1)
+            out |= scale_taint(x, depth + 1, kind)
     if av.obj is not None and depth < 4:
         for k, v in av.obj.fields.items():
-            if scale_taint(v, depth + 1):
+            if scale_taint(v, depth + 1, kind):
                 out.add(('field', k))
     return out
 
